@@ -208,8 +208,10 @@ func (rig *mconnRig) model(fs []frame) (exp []delivery, mustErr bool, exact bool
 		if !ok {
 			return exp, true, true
 		}
-		if len(f.Data) > rig.cfg.MaxPacketMsgPayloadSize {
-			// the frame is larger than the largest legal packet: refused by the frame reader
+		if len(packetMsg(f.Ch, f.Data, f.EOF)) > rig.maxPkt {
+			// the encoded packet is larger than the largest packet the node itself would send (payload limit on
+			// channel 1 with EOF): refused by the frame reader. (A packet on channel 0 / without EOF may carry a few
+			// bytes more than MaxPacketMsgPayloadSize: the limit is on the encoded size.)
 			return exp, true, true
 		}
 		if len(bufs[ch])+len(f.Data) > capa {
@@ -252,18 +254,17 @@ func (rig *mconnRig) runConn(c *core.Case, fs []frame, label string) {
 	run := c.Run
 	c1, c2 := net.Pipe()
 	var mu sync.Mutex
-	var got []delivery
-	var errs []string
-	_ = errs
+	var gotLive []delivery // written by the connection's callbacks (under mu)
+	var errsLive []string
 	errCh := make(chan struct{}, 4)
 	onReceive := func(ch byte, b []byte) {
 		mu.Lock()
-		got = append(got, delivery{ch, append([]byte{}, b...)})
+		gotLive = append(gotLive, delivery{ch, append([]byte{}, b...)})
 		mu.Unlock()
 	}
 	onError := func(r interface{}) {
 		mu.Lock()
-		errs = append(errs, fmt.Sprint(r))
+		errsLive = append(errsLive, fmt.Sprint(r))
 		mu.Unlock()
 		errCh <- struct{}{}
 	}
@@ -300,7 +301,7 @@ func (rig *mconnRig) runConn(c *core.Case, fs []frame, label string) {
 	}
 	for time.Now().Before(deadline) {
 		mu.Lock()
-		ng, ne := len(got), len(errs)
+		ng, ne := len(gotLive), len(errsLive)
 		mu.Unlock()
 		if ne > 0 || (exact && !mustErr && ng >= len(exp)) {
 			break
@@ -309,7 +310,7 @@ func (rig *mconnRig) runConn(c *core.Case, fs []frame, label string) {
 	}
 	time.Sleep(300 * time.Microsecond)
 	mu.Lock()
-	gotSnap, errSnap := append([]delivery(nil), got...), append([]string(nil), errs...)
+	got, errs := append([]delivery(nil), gotLive...), append([]string(nil), errsLive...) // what happened before the harness closes its end
 	mu.Unlock()
 	tWait := time.Now()
 	c1.Close()
@@ -325,7 +326,6 @@ func (rig *mconnRig) runConn(c *core.Case, fs []frame, label string) {
 	if os.Getenv("C18_DEBUG") != "" {
 		fmt.Fprintln(os.Stderr, "MCONN", label, len(fs), "frames; write+wait", tWait.Sub(tStart), "stop", time.Since(tWait))
 	}
-	got, errs = gotSnap, errSnap // what happened before the harness closed its end
 	wit := map[string]interface{}{"sequence": label, "frames": frameWitness(fs), "delivered": len(got), "errors": errs}
 	pc.mu.Lock()
 	pstack, perr := pc.stack, pc.err
